@@ -6,12 +6,20 @@
   states (reachable or not): no step ever indexes an empty slice (the only panics the Go
   code can raise), hence `Write`/`Parse`/`Decoder.Next` never panic; the partial-token
   buffer only ever grows by bytes actually received (no allocation on the strength of a
-  length field).  Termination within a linear step bound and the truncation clause are
-  covered by the executable mirror (fuel-instrumented), the correspondence (outcome class
-  incl. hang) and the oracle; wall-clock time and real heap are runtime facts (partial by
-  nature, DESIGN §10).
+  length field); NO HANG: the loops of `Parse` / `Write` finish within a number of steps
+  LINEAR in the input length, for every byte string and chunking (`parse_terminates`,
+  `writeChunks_terminates`, `feedUntil_linear`: the mirror's fuel — the stand-in for "the Go
+  loop is still running" — never runs out; each step consumes a byte or leaves a pending
+  zero-length start); TRUNCATION IS AN ERROR: every proper non-empty prefix of every
+  grammatical item is refused, through `Parse` and through every chunking
+  (`truncated_is_error`, `truncated_is_error_chunks`), and more strongly the parser accepts
+  EXACTLY the concatenations of complete items (`parse_accepts_iff`).  Proofs:
+  SF/Proofs/CborCtx … CborTermTop.lean (a simulation between parser states and ghost
+  contexts of open containers).  Wall-clock time and real heap are runtime facts (partial by
+  nature, DESIGN §10); UBJSON / JSON: mirror (fuel-instrumented) + correspondence + oracle.
 -/
 import SF.Proofs.CborNoPanic
+import SF.Proofs.CborTermTop
 namespace SF.Props.C03
 open SF SF.Cbor SF.Cbor.Parse
 
@@ -97,6 +105,42 @@ theorem collect_buffer_le (buffer b : Bytes) (n : Nat) :
   simp only []
   repeat' split
   all_goals simp_all [List.length_append, List.length_take, List.length_drop] <;> omega
+
+/-! ### no hang, truncation -/
+
+/-- C03 (no-hang clause) for cborl: `Parse` of ANY byte string terminates — the fuel that
+stands for the Go `for` loops never runs out -/
+theorem parse_terminates (b : Bytes) : (Parse.parse {} b).2 ≠ some .outOfFuel :=
+  SF.Cbor.Term.parse_terminates b
+
+/-- … and so does any sequence of `Write` calls, for ANY chunking -/
+theorem writeChunks_terminates (cs : List Bytes) : (writeChunks {} cs).2 ≠ some .outOfFuel :=
+  SF.Cbor.Term.writeChunks_terminates cs
+
+/-- the explicit linear bound: from any state between two writes, `2·|b| + 2` iterations of
+the inner loop always suffice for input `b` -/
+theorem feedUntil_linear (p : P) (h : SF.Cbor.Term.Inv p) (herr : p.err = none) (b : Bytes) (hb : b ≠ [])
+    (f : Nat) (hf : 2 * b.length + 2 ≤ f) : (feedUntil f p b).err ≠ some .outOfFuel :=
+  SF.Cbor.Term.feedUntil_linear p h herr b hb f hf
+
+/-- C03 (truncation clause) for cborl: EVERY proper non-empty prefix of EVERY grammatical
+item is reported as an error by `Parse` … -/
+theorem truncated_is_error (it : Cst.Item) (h : it.ok = true) (k : Nat) (hk0 : 0 < k) (hk : k < it.wire.length) :
+    (Parse.parse {} (it.wire.take k)).2 ≠ none :=
+  SF.Cbor.Term.truncated_is_error it h k hk0 hk
+
+/-- … and by `Write*` + end of input / `ParseReader`, however the prefix is chunked -/
+theorem truncated_is_error_chunks (it : Cst.Item) (h : it.ok = true) (k : Nat) (hk0 : 0 < k)
+    (hk : k < it.wire.length) (cs : List Bytes) (hcs : cs.flatten = it.wire.take k) :
+    (writeChunks {} cs).2 ≠ none :=
+  SF.Cbor.Term.truncated_is_error_chunks it h k hk0 hk cs hcs
+
+/-- the parser accepts EXACTLY the concatenations of complete grammatical items (`okw` =
+`Item.ok` without the 2^63 bound on the element count of indefinite containers, which the
+parser does not count) — nothing that ends in the middle of a value is ever accepted -/
+theorem parse_accepts_iff (b : Bytes) :
+    (Parse.parse {} b).2 = none ↔ ∃ its, SF.Cbor.Sim.okwList its = true ∧ b = Cst.wireList its :=
+  SF.Cbor.Term.parse_accepts_iff b
 
 /-- non-vacuity: inputs that used to panic or hang (tag, half float, reserved code, length
 2^64-1) now yield plain errors; evaluated by the kernel -/
